@@ -612,6 +612,10 @@ def f_tree():
     add("hidden-subcommands", cmd("p", [arg("f", "f", action="SetTrue")],
                                   subs=[cmd("vis", [arg("v", "v", action="SetTrue")], subs=[cmd("inner"), cmd("ihid", hide=True)]), cmd("hid", hide=True),
                                         cmd("hidabout", hide=True, about="about")]), extra=["vis", "hid", "hidabout", "h", "help", "inner", "ihid"])
+    # a hand-written subcommand called `help` (the generated one disabled) is an ordinary subcommand: globals reach it
+    add("user-defined-help-subcommand", cmd("p", [arg("g", "g", "gg", glob=True, action="SetTrue")],
+                                            subs=[cmd("help", [arg("x", "x", action="SetTrue"), arg("topic")]), cmd("run", [arg("r", "r", action="SetTrue")])],
+                                            disable_help_subcommand=True), extra=["help", "run", "-g", "--gg", "-x", "topic"])
     # what becomes of argv[0]
     applets = [cmd("true"), cmd("ls", [arg("l", "l", "long", action="SetTrue"), arg("path", num=(0, None))], aliases=["dir"]),
                cmd("box", subs=[cmd("inner", [arg("i", "i", action="SetTrue")])])]
